@@ -88,7 +88,7 @@ func ruleR051(p *Program, r *Report) {
 				for _, s := range sends {
 					okDom := false
 					for _, i := range ifs {
-						if i.Block().Succs[1].Dominates(s.Block) {
+						if edgeOnly(i, i.Block().Succs[1], i.Block().Succs[0], s.Block) {
 							okDom = true
 						}
 					}
